@@ -32,7 +32,7 @@ def spell(rng: random.Random, mag: int, r: str, fancy: bool) -> str:
     return str(mag)
 
 
-def mk_variants(rng, entries, r, implicit_ok=True, fancy=False) -> List[Variant]:
+def mk_variants(rng, entries, r, implicit_ok=True, fancy=False, implicit_p=0.5) -> List[Variant]:
     """entries: list of (disc, ident, rename|None) in declaration order"""
     out = []
     nxt = 0
@@ -46,7 +46,7 @@ def mk_variants(rng, entries, r, implicit_ok=True, fancy=False) -> List[Variant]
             for _ in range(rng.choice([1, 1, 2])):
                 a = VAttr("foreign", text=rng.choice(FOREIGN))
                 attrs.insert(rng.choice([0, len(attrs)]), a)
-        if implicit_ok and d == nxt and rng.random() < 0.5:
+        if implicit_ok and d == nxt and rng.random() < implicit_p:
             disc = Disc("none")
         elif d < 0:
             disc = Disc("neg", -d, spell(rng, -d, r, fancy))
@@ -104,17 +104,24 @@ def config(kind: str, gapless: bool, rng: Optional[random.Random] = None) -> Lis
     return f
 
 
+ENUM_FOREIGN = ["#[allow(dead_code)]", "/// a doc comment", "#[must_use]", "#[non_exhaustive]", "#[doc = \"name-value\"]",
+                "#[cfg_attr(all(), allow(unused))]", "#[doc(hidden)]", "#[doc(alias = \"other\")]"]
+
+
 def mk_subject(sid, r, entries, feats, rng, split=1, fancy=False, family="", note="", vis="pub",
-               implicit_ok=True, foreign=False) -> Subject:
+               implicit_ok=True, foreign=False, implicit_p=0.5, ename="E") -> Subject:
     attrs = []
     if foreign:
+        # foreign attributes of every meta shape (path, list, name-value, doc comment, tool path) around the derive's own
         attrs.append(EAttr("foreign", text="#[allow(dead_code)]"))
         attrs.append(EAttr("foreign", text="/// a doc comment"))
+        for t in rng.sample(ENUM_FOREIGN[2:], 2):
+            attrs.append(EAttr("foreign", text=t))
     c = cfg_attrs(feats, split)
     # repr somewhere between the enum_tools attributes
     pos = rng.randrange(len(c) + 1)
     attrs += c[:pos] + [EAttr("repr", r)] + c[pos:]
-    return Subject(sid, attrs, mk_variants(rng, entries, r, implicit_ok, fancy), family=family, note=note, vis=vis)
+    return Subject(sid, attrs, mk_variants(rng, entries, r, implicit_ok, fancy, implicit_p), family=family, note=note, vis=vis, ename=ename)
 
 
 def idents(n, prefix="V"):
@@ -228,6 +235,10 @@ def iter_scripts(n, rng, count, splits_upto=5, ord_items=False):
     out.append([f"u{n}", "b", "n", "h"])
     for fin in fins:
         out.append([";", fin])
+    # arguments of nth / nth_back that only differ from small ones above 2^8, 2^16, 2^32: a narrowed counter shows
+    for w in (8, 16, 32):
+        k = (1 << w) + rng.choice([0, 1, 2])
+        out.append([f"t{k}", "n", "l"] if rng.random() < 0.5 else [f"u{k}", "b", "l"])
     for _ in range(count):
         rem = n
         ops = []
@@ -302,7 +313,11 @@ class OpGen:
             if {"tf": "try_from", "tt": "TryFrom"}[k] in feats:
                 for v in tvals:
                     self.op(k, v)
-        vsel = vals if len(vals) <= (2000 if thorough else 300) else sorted(set(rng.sample(vals, 200) + boundary_in(vals)))
+        bnd = boundary_in(vals)
+        if len(bnd) > 400:
+            # tens of thousands of runs: a sample of the run ends, always with the outermost ones and the middle of the value order
+            bnd = sorted(set(rng.sample(bnd, 300) + bnd[:4] + bnd[-4:] + bnd[len(bnd) // 2 - 2: len(bnd) // 2 + 2]))
+        vsel = vals if len(vals) <= (2000 if thorough else 300) else sorted(set(rng.sample(vals, 200) + bnd))
         for k, f in (("into", "into"), ("Into", "Into"), ("next", "next"), ("nb", "next_back"), ("as", "as_str"),
                      ("disp", "Display"), ("dbg", "Debug"), ("istr", "IntoStr")):
             if f in feats:
@@ -345,6 +360,8 @@ class OpGen:
                 pairs = [(a, b) for a in vals for b in vals]
             else:
                 bs = boundary_in(vals)
+                if len(bs) > 400:
+                    bs = sorted(set(rng.sample(bs, 40) + bs[:2] + bs[-2:]))
                 pairs = {(vals[0], vals[-1]), (vals[-1], vals[0]), (vals[0], vals[0]), (vals[-1], vals[-1])}
                 for a in bs:
                     for b in rng.sample(bs, min(len(bs), 4)):
@@ -380,6 +397,7 @@ def boundary_in(vals):
 class Corpus:
     def __init__(self, seed: int, tier: str):
         self.rng = random.Random(seed)
+        self.rng_salt = seed
         self.tier = tier
         self.subjects: List[Subject] = []
         self.ops = {}          # sid -> list of OP lines
@@ -400,10 +418,13 @@ class Corpus:
         if group is not None:
             self.groups.setdefault(group, []).append(s.sid)
 
-    def add_decl(self, fam, r, vals, kinds, rename_p=0.0, dup_names=False, fancy=False, note="", foreign=False, **opkw):
+    def add_decl(self, fam, r, vals, kinds, rename_p=0.0, dup_names=False, fancy=False, note="", foreign=False,
+                 implicit_p=0.5, shuffle=True, ids=None, ename="E", **opkw):
         rng = self.rng
         gapless = all(vals[i] + 1 == vals[i + 1] for i in range(len(vals) - 1))
-        ents = entries_for(rng, vals, rename_p, dup_names)
+        ents = entries_for(rng, vals, rename_p, dup_names, shuffle=shuffle)
+        if ids is not None:
+            ents = [(d, ids[i], ren) for i, (d, _, ren) in enumerate(ents)]
         gkey = f"{fam}:{self._k}:{r}"
         for kind in kinds:
             if kind == "alt" and False:
@@ -411,7 +432,7 @@ class Corpus:
             feats = config(kind, gapless, rng)
             split = rng.choice([1, 1, 2, 3])
             s = mk_subject(self.sid(fam), r, ents, feats, rng, split=split, fancy=fancy, family=fam,
-                           note=f"{note} cfg={kind}", foreign=foreign)
+                           note=f"{note} cfg={kind}", foreign=foreign, implicit_p=implicit_p, ename=ename)
             self.add(s, group=gkey, **opkw)
 
     # --- regression witnesses of recorded defects and past failures
@@ -504,6 +525,8 @@ class Corpus:
             self.add_decl("B", "i32", list(range(-4000, -1000)) + list(range(5, 1500)), ["table"], note="i32 4.5k variants 2 runs",
                           iter_count=2, str_limit=0)
             self.add_decl("B", "u16", list(range(30000, 36000)), ["table"], note="u16 6000 variants across 0x8000", iter_count=1, str_limit=0)
+            # (enums with more than 2^15 variants or runs -- positions beyond i16::MAX -- are out of reach: rustc compiles a
+            # light feature set for them in seconds, but the compiled model's association lists need about an hour per enum)
 
     # --- metamorphic: same value->name map under every admissible repr and several orders (C18)
     def fam_metamorphic(self):
@@ -558,14 +581,23 @@ class Corpus:
                 if f in nameable:
                     if rng.random() < 0.6:
                         params["name"] = ("K_" + f.upper()) if f in ("MIN", "MAX") else f"my_{f}_{i}"
+                        if i % 4 == 1:
+                            # identifiers need not be ASCII
+                            params["name"] = ("GRÖSSTE_" + f.upper()) if f in ("MIN", "MAX") else f"mein_{f}_ä{i}"
                     if rng.random() < 0.6:
                         params["vis"] = rng.choice(["", "pub(crate)", "pub"])
                     if f in ("iter", "names") and rng.random() < 0.6:
-                        params["struct_name"] = f"My{f.capitalize()}{i}"
+                        params["struct_name"] = f"My{f.capitalize()}{i}" if i % 4 != 1 else f"Zähler{f.capitalize()}{i}"
                 feats.append((f, params))
             ents = entries_for(rng, vals, rename_p=0.2)
-            evis = rng.choice(["pub", "pub(crate)", "pub"])
-            if evis != "pub":
+            evis = ["pub", "pub(crate)", "pub", ""][i % 4] if i >= 4 else rng.choice(["pub", "pub(crate)", "pub"])
+            if evis == "":
+                # a private enum: functions, constants and the names struct may still be asked to be wider; an iterator struct
+                # wider than its item type is rustc's E0446
+                feats = [(f, {k: v for k, v in params.items() if not (f == "iter" and k == "vis")}) for f, params in feats]
+                if not any(f == "names" and params.get("vis") for f, params in feats):
+                    feats = [(f, dict(params, vis="pub(crate)") if f == "names" else params) for f, params in feats]
+            elif evis != "pub":
                 # an item more visible than its enum is rustc's E0446, not the derive's business
                 feats = [(f, {k: ("pub(crate)" if k == "vis" and v == "pub" else v) for k, v in params.items()}) for f, params in feats]
             s = mk_subject(self.sid("V"), r, ents, feats, rng, split=rng.choice([1, 2]), family="V",
@@ -617,6 +649,113 @@ class Corpus:
                            note=f"sorted({which[0]}) only, other order free cfg={kind}")
             self.add(s, iter_count=3, str_limit=1)
 
+
+    # --- sizes, spans and positions at powers of two: where a count, a span or an index stops fitting a narrower type
+    def fam_pow2(self):
+        rng = self.rng
+        small = dict(iter_count=2, str_limit=0)
+        # exactly 2^8 variants (and one less / one more) in reprs wider than 8 bits, and in the 8-bit reprs with every iterator mode
+        self.add_decl("P", "u16", list(range(100, 356)), ["table", "match"], note="256 gapless in u16", **small)
+        self.add_decl("P", "i16", list(range(-128, 128)), ["match", "auto"], note="256 gapless in i16", **small)
+        self.add_decl("P", "i32", list(range(-256, 0)), ["table", "alt"], note="256 gapless in i32", **small)
+        self.add_decl("P", "u16", list(range(0, 255)), ["table", "match"], note="255 gapless in u16", **small)
+        self.add_decl("P", "u16", list(range(1, 258)), ["match", "table"], note="257 gapless in u16", **small)
+        self.add_decl("P", "u8", list(range(0, 256)), ["match", "alt"], note="u8 full, explicit modes", **small)
+        # with holes, a run of 129+ before later runs (signed 8-bit: position and run length pass 127)
+        self.add_decl("P", "i8", list(range(-100, 51)) + list(range(52, 71)), ["table", "match", "auto"], note="i8 run of 151 then 19", **small)
+        self.add_decl("P", "i8", list(range(-128, 2)) + list(range(10, 80)), ["table", "auto"], note="i8 run of 130 then 70", **small)
+        self.add_decl("P", "u8", list(range(0, 130)) + list(range(140, 210)), ["table", "match"], note="u8 run of 130 then 70", **small)
+        # with holes, MAX - MIN exactly 2^k (and 2^k +- 1), last run of two
+        for r, k in (("u8", 5), ("u8", 6), ("i8", 6), ("u16", 6), ("i64", 6), ("u8", 7), ("u16", 8), ("i32", 16), ("u64", 6)):
+            for d in (-1, 0, 1):
+                span = (1 << k) + d
+                base = rng.choice([0, repr_lo(r), rng.randint(repr_lo(r) // 2 if repr_lo(r) < 0 else 0, 50)])
+                if base + span > repr_hi(r):
+                    base = repr_hi(r) - span
+                vals = sorted({base, base + 1, base + span // 2, base + span - 1, base + span})
+                self.add_decl("P", r, vals, [["table", "match"], ["match", "auto"], ["auto", "table"]][d + 1],
+                              note=f"span 2^{k}{d:+d} with holes", iter_count=2, str_limit=1)
+        # MAX - MIN congruent to (count - 1) modulo 2^w: a span narrowed to w bits says "gapless"
+        for r, w in (("i64", 32), ("u64", 32), ("i128", 32), ("isize", 32), ("usize", 32), ("i32", 16), ("u32", 16), ("i64", 16),
+                     ("i16", 8), ("u16", 8), ("i64", 8), ("u128", 32)):
+            for kk in (1, 3):
+                b = rng.choice([0, 7, -1, -5]) if repr_lo(r) < 0 else rng.choice([0, 7])
+                vals = [b, b + 1, b + kk * (1 << w) + 2]
+                if vals[-1] > min(repr_hi(r), (1 << 63) - 1):
+                    continue
+                self.add_decl("P", r, vals, ["table", "match"] if kk == 1 else ["auto", "subset"],
+                              note=f"span = count-1 mod 2^{w}", iter_count=2, str_limit=1)
+            if repr_lo(r) < 0:
+                self.add_decl("P", r, [-1, 1 << w], ["auto", "match"], note=f"two variants, span 2^{w}+1", iter_count=2, str_limit=1)
+        # usize / isize around 2^32, 2^31 and 2^16: the derive can only guess the pointer width
+        for r, vals in (("usize", [(1 << 32) - 3, (1 << 32) - 2, (1 << 32) - 1]),
+                        ("usize", [(1 << 32) - 2, (1 << 32) - 1, 1 << 32, (1 << 32) + 1]),
+                        ("usize", [5, (1 << 32) - 2, (1 << 32) - 1, 1 << 32]),
+                        ("usize", [65534, 65535, 65536]),
+                        ("isize", [(1 << 31) - 3, (1 << 31) - 2, (1 << 31) - 1]),
+                        ("isize", [(1 << 31) - 2, (1 << 31) - 1, 1 << 31, (1 << 31) + 1]),
+                        ("isize", [-(1 << 31), -(1 << 31) + 1, -(1 << 31) + 2]),
+                        ("isize", [-(1 << 31) - 2, -(1 << 31) - 1, -(1 << 31), 7]),
+                        ("isize", [-(1 << 63), -(1 << 63) + 1]), ("usize", [(1 << 63) - 2, (1 << 63) - 1]),
+                        ("usize", [3, 9]), ("isize", [-1, 5]), ("usize", [1, 2, 9]), ("isize", [-7, 0, 1, 30])):
+            self.add_decl("P", r, vals, ["table", "match", "auto"], note="pointer-width guesses", shuffle=False, implicit_p=1.0,
+                          iter_count=2, str_limit=1)
+        # the same limits for the fixed-width reprs: implicit discriminants right up to the type's own MAX
+        for r in ("u8", "i8", "u16", "i16", "u32", "i32", "i64"):
+            hi = repr_hi(r)
+            self.add_decl("P", r, [hi - 2, hi - 1, hi], ["match", "auto"], note="implicit up to the type MAX", shuffle=False,
+                          implicit_p=1.0, iter_count=2, str_limit=1)
+
+    # --- identifiers: variants and enums named like things the generated code mentions
+    VARIANT_IDENTS = ["Error", "Err", "Item", "IntoIter", "Output", "Some", "None", "Ok", "Option", "Result", "Iterator", "Self_",
+                      "r#type", "r#match", "r#fn", "Zähler", "B", "F", "T", "I", "R", "Default", "From", "Into", "TryFrom", "FromStr",
+                      "Debug", "Display", "Copy", "Clone", "Sized", "Target", "Owned", "Iter", "Names", "IntoIterator", "Range",
+                      "DoubleEndedIterator", "ExactSizeIterator", "FusedIterator", "Formatter", "Rev", "Ordering"]
+    ENUM_NAMES = ["B", "F", "T", "I", "R", "Item", "Error", "Iter", "Names", "Acc", "Fold"]
+
+    def fam_idents(self):
+        rng = self.rng
+        ids = list(self.VARIANT_IDENTS)
+        k = 0
+        while ids:
+            n = min(len(ids), rng.choice([3, 4, 5, 7]))
+            chunk, ids = ids[:n], ids[n:]
+            r = ["u8", "i16", "i64", "usize"][k % 4]
+            base = rng.choice([0, -3, 9]) if repr_lo(r) < 0 else rng.choice([0, 9])
+            vals = list(range(base, base + n)) if k % 2 == 0 else [base + 2 * i + (i // 2) for i in range(n)]
+            self.add_decl("I", r, vals, [["table", "auto"], ["match", "auto"], ["auto", "alt"]][k % 3], ids=chunk,
+                          rename_p=0.15, note="variant identifiers", iter_count=2, str_limit=2)
+            k += 1
+        for j, en in enumerate(self.ENUM_NAMES):
+            r = ["u8", "i8", "u16"][j % 3]
+            vals = [1, 2, 3] if j % 2 == 0 else [1, 2, 9, 10, 30]
+            self.add_decl("I", r, vals, [["auto", "table"], ["match", "alt"], ["auto", "inline"]][j % 3], ename=en,
+                          note=f"enum named {en}", iter_count=2, str_limit=1)
+
+    # --- every single feature and every pair of features on its own, all modes auto (what one feature needs from another)
+    def fam_pairs(self):
+        rng = self.rng
+        fs = ALL_FEATURES
+        k = 0
+        for i in range(len(fs)):
+            for j in range(i, len(fs)):
+                pick = [fs[i]] if i == j else [fs[i], fs[j]]
+                if "range" in pick and "iter" not in pick:
+                    pick.append("iter")
+                if self.tier != "thorough" and i != j and (i * 31 + j * 17 + self.rng_salt) % 2:
+                    continue
+                gapless = k % 2 == 0
+                r = ["u8", "i8", "i32"][k % 3]
+                vals = [4, 5, 6] if gapless else [1, 2, 7, 20, 21]
+                feats = [(x, {}) for x in pick]
+                if k % 4 == 3:
+                    feats.reverse()
+                ents = entries_for(rng, vals, rename_p=0.2)
+                s = mk_subject(self.sid("Q"), r, ents, feats, rng, split=1 + (k % 2) * (len(feats) > 1), family="Q",
+                               note=f"only {'+'.join(pick)}")
+                self.add(s, iter_count=1, str_limit=1)
+                k += 1
+
     def build(self):
         self.fam_sorted()
         self.fam_named()
@@ -627,4 +766,7 @@ class Corpus:
         self.fam_big()
         self.fam_metamorphic()
         self.fam_auto()
+        self.fam_pow2()
+        self.fam_idents()
+        self.fam_pairs()
         return self
